@@ -16,6 +16,7 @@ import KikiVerif.Properties.C09
 import KikiVerif.Properties.C10
 import KikiVerif.Proofs.NoPanic
 import KikiVerif.Proofs.TermBuild
+import KikiVerif.Proofs.Pipeline
 import KikiVerif.Proofs.Encode
 
 namespace KikiVerif.C07
@@ -104,6 +105,22 @@ theorem C07_generator_total (vf : VFile.File) (enc : Encode.Enc) (he : Encode.en
   | conflict s e n => exact Or.inr ⟨s, e, n, rfl, Table.conflict_genuine _ _ s e n h⟩
   | panic site => exact absurd h (NoPanic.machineToTable_no_panic ok mok site)
 
+/-- **C07, no panic, end to end**: for every source text (any UTF-8 string: the model works on `List Char` with
+byte offsets) and every fuel, the pipeline `generate` is made of never stops at a panic site.  `Generate.stages`
+mirrors `lib.rs::generate` stage by stage and has an explicit `panic` outcome at every `unwrap`, `expect`,
+slice and index of the Rust code; the correspondence run checks on every generated input that model and
+implementation agree on the outcome class and on every intermediate value. -/
+theorem C07_generate_no_panic (src sha : Str) (fuel : Nat) (site : String) :
+    (Generate.stages src sha fuel).stop ≠ .panic site :=
+  Pipeline.stages_no_panic src sha fuel site
+
+/-- after validation the symbol coding and the text emitter cannot fail (for files whose terminal names contain
+no `$` — every file that comes from the tokenizer) -/
+theorem C07_emission_total {f : Ast.File} {vf : VFile.File} (hv : Validate.validateAst f = .ok vf)
+    (hdf : EmitTotal.DollarFree f) :
+    (∃ enc, Encode.encode vf = some enc) ∧ ∀ enc t sha, ∃ m, Emit.moduleOf vf enc t sha = some m :=
+  ⟨EmitTotal.encode_total hv hdf, fun enc t sha => EmitTotal.moduleOf_total hv hdf enc t sha⟩
+
 end KikiVerif.C07
 
 #print axioms KikiVerif.C07.bracketScan_no_panic
@@ -115,3 +132,5 @@ end KikiVerif.C07
 #print axioms KikiVerif.C07.C07_generator_no_panic
 #print axioms KikiVerif.C07.C07_parse_error_no_panic
 #print axioms KikiVerif.C07.C07_generator_total
+#print axioms KikiVerif.C07.C07_generate_no_panic
+#print axioms KikiVerif.C07.C07_emission_total
